@@ -67,6 +67,11 @@ def _mwrite(self, data, block=None):
 FileStorage.write = _fwrite
 MemoryStorage.write = _mwrite
 
+# C16: every loop iteration is a yield point (wrapped in this process only; atomic requests are unaffected
+# because run_iterator drains the generator anyway)
+from traph.traph_iterator_state import TraphIteratorState  # noqa: E402
+TraphIteratorState.should_yield = lambda self, yield_frequency=1000: True
+
 
 def writes_fingerprint(log):
     h = FNV_INIT
@@ -126,6 +131,15 @@ def render_report(r):
 
 def render_links(l):
     return brack(["%s>%s:%d" % (hx(a), hx(b), w) for a, b, w in l])
+
+
+def render_graph(g):
+    rows = []
+    for src in sorted(g.keys()):
+        c = g[src]
+        ts = sorted("%d=%d" % (k, v) for k, v in c.items() if not isinstance(k, str))
+        rows.append("%d:c=%d:u=%d:{%s}" % (src, c.get("pages_crawled", 0), c.get("pages_uncrawled", 0), "/".join(ts)))
+    return "ok " + brack(rows)
 
 
 class Impl(object):
@@ -250,6 +264,8 @@ class Impl(object):
             return render_report(t.index_batch_crawl(data))
         if op == "?":
             return self._query(w[1:])
+        if op == "co":
+            return self._co(w[1:])
         if op == "cut":
             return self._cut(int(w[1]), int(w[2]))
         if op == "uncut":
@@ -262,6 +278,40 @@ class Impl(object):
         if op == "dump":
             tb, lb = self.images()
             return "T=%s L=%s" % (hx(tb), hx(lb))
+        return "bad-op"
+
+    # -- C16: generators advanced one yield at a time
+    def _co(self, w):
+        t = self.t
+        if not hasattr(self, "cos"):
+            self.cos = {}
+        if w[0] == "new":
+            cid, kind, args = int(w[1]), w[2], w[3:]
+            if kind == "batch":
+                data = {}
+                if args[0] != "-":
+                    for e in args[0].split(";"):
+                        a, ts = e.split(">")
+                        data[unx(a)] = [unx(x) for x in ts.split(",")] if ts else []
+                g, render = t.index_batch_crawl_iter(data, 1), render_report
+            elif kind == "rule":
+                g, render = t.add_webentity_creation_rule_iter(unx(args[0]), RULES[args[1]]), render_report
+            elif kind == "pages":
+                g = t.get_webentity_pages_iter(int(args[0]), unx_list(args[1]))
+                render = lambda r: "ok " + brack([hx(p["lru"]) + ":" + b01(p["crawled"]) for p in r])  # noqa
+            elif kind == "net":
+                g = t.get_webentities_links_iter(out=(args[0] == "1"), include_auto=(args[1] == "1"))
+                render = render_graph
+            else:
+                return "bad-op"
+            self.cos[cid] = (g, render)
+            return "ok"
+        if w[0] == "step":
+            g, render = self.cos[int(w[1])]
+            st = next(g)
+            if st.done:
+                return "done " + render(st.result)
+            return "yield"
         return "bad-op"
 
     # -- C18: rebuild both files from a prefix of the real write log and reopen them with the real code
@@ -381,12 +431,7 @@ class Impl(object):
         if q == "network":
             out, auto, slow = w[1] == "1", w[2] == "1", w[3] == "1"
             g = (t.get_webentities_links_slow if slow else t.get_webentities_links)(out=out, include_auto=auto)
-            rows = []
-            for src in sorted(g.keys()):
-                c = g[src]
-                ts = sorted("%d=%d" % (k, v) for k, v in c.items() if not isinstance(k, str))
-                rows.append("%d:c=%d:u=%d:{%s}" % (src, c.get("pages_crawled", 0), c.get("pages_uncrawled", 0), "/".join(ts)))
-            return "ok " + brack(rows)
+            return render_graph(g)
         if q == "expand":
             return "ok " + brack([hx(x) for x in t.expand_prefix(unx(w[1]))])
         if q == "variations":
